@@ -513,7 +513,7 @@ func TestCheck(t *testing.T) {
 		"outcome_classes":               classes.Top(80),
 		"exhaustive":                    true,
 		"samples":                       samples,
-		"rule":                          "every (target, image) pair: 7 targets x page sizes x {valid images: page sizes x {1,2,3,257} pages x {rollback,WAL header}; 13 invalid inputs}; each pair is one history export -> import -> export -> replicate -> restart on a fresh 2-node cluster (transitions counts the three HTTP operations)",
+		"rule":                          "every (target, image) pair: 8 targets (incl. a dead application's hot journal) x page sizes x {valid images: page sizes x {1,2,3,257} pages x {rollback,WAL header}; 13 invalid inputs}; each pair is one history export -> import -> export -> replicate -> restart on a fresh 2-node cluster (transitions counts the three HTTP operations)",
 	}
 	if classes.N() < 6 && run.NViolations() == 0 {
 		run.HarnessError("vacuous: %d classes", classes.N())
